@@ -584,7 +584,7 @@ GROUPS = [
     Group('staticInitialize', 'h_staticInitialize', enforce='Position_staticInitialize', min_props=5),
     Group('makeMove', 'h_makeMove', enforce='Position_makeMove', replace=_MUT + _NN, min_props=30, timeout=7200),
     Group('make_unmake', 'h_make_unmake', replace=_MUT + _NN + ('BitBoard_firstSquare',), min_props=30, timeout=10800, tier='thorough'),
-    Group('make_unmake_split', 'h_make_unmake', replace=_MUT + _NN + ('BitBoard_firstSquare',), min_props=30, timeout=7200,   # quick tier: 6 cases of 7-8 min in parallel
+    Group('make_unmake_split', 'h_make_unmake', replace=_MUT + _NN + ('BitBoard_firstSquare',), min_props=30, timeout=7200, tier='thorough',   # 6 cases of 7-8 min in parallel (was in the quick tier: too slow for a check run on every change)
           cases=('case', [('CASE_MU=%d' % k,) for k in range(6)])),
     Group('fold_lemma', 'h_fold_lemma', cases=('KK', list(range(64))), min_props=4, timeout=3600, unwind=65),
     Group('serialize', 'h_serialize', enforce='Position_serialize', min_props=5),
